@@ -17,6 +17,11 @@ dst = '/verif/seeded/%s-%s' % (prop, n)
 os.makedirs(dst, exist_ok=True)
 for fn in ('patch.diff', 'demo.py', 'notes.md'):
     shutil.copy(os.path.join(src, fn), os.path.join(dst, fn))
+rebased = os.path.join(src, 'patch.rebased.diff')
+if os.path.exists(rebased):
+    # a later fix: commit in /repo touched the same lines: keep the agent's original and use the re-based patch
+    shutil.copy(os.path.join(src, 'patch.diff'), os.path.join(dst, 'patch.orig.diff'))
+    shutil.copy(rebased, os.path.join(dst, 'patch.diff'))
 # run the checks against /repo with the patch applied, then undo
 subprocess.check_call(['git', '-C', '/repo', 'apply', os.path.join(dst, 'patch.diff')])
 caught = {}
@@ -33,6 +38,7 @@ meta = {'id': '%s-%s' % (prop, n), 'property': prop, 'source': 'independent sub-
         'confirmed': {'demo_clean_exit': 0, 'demo_patched_exit': int(kv['demo_patched_exit']), 'pinned_suite': '213/213 (serial, PYTHONPATH override) with the patch applied',
                       'commands': ['tools/confirm_seed.sh %s %s' % (prop, n)]},
         'checks': caught,
+        'rebased': os.path.exists(rebased),
         'detected': any(v['exit'] == 1 for v in caught.values())}
 json.dump(meta, open(os.path.join(dst, 'meta.json'), 'w'), indent=1)
 print(json.dumps(meta['checks']), 'detected' if meta['detected'] else 'MISSED')
